@@ -1,7 +1,7 @@
 """C17 — check(fix=True) repairs any out-of-band damage; plain check() only reports.
 
 A real cache directory is damaged behind the library's back (value files
-deleted, truncated, extended, added; empty directories at both levels; wrong
+deleted, truncated (also to zero bytes), extended, added; empty directories at both levels; wrong
 Settings counters), then check(), check(fix=True), check() are run for real and
 on DC.Model.Check with the same observed directory; warnings and the repaired
 directory are compared.  Acceptor: second check silent, undamaged items
@@ -118,9 +118,14 @@ def damage(rng, directory):
                 vals.append(os.path.join(dp, fn))
     vals.sort()
     kinds = ['delete', 'truncate', 'extend', 'add_known_dir', 'add_new_dir', 'empty2', 'empty1', 'empty12', 'count', 'size',
-             'move_known_dir', 'move_new_dir', 'cancel_count', 'cancel_size']
+             'move_known_dir', 'move_new_dir', 'cancel_count', 'cancel_size', 'truncate_zero']
     for kind in rng.sample(kinds, rng.randint(0, 6)):
-        if kind in ('delete', 'truncate', 'extend') and vals:
+        if kind == 'truncate_zero' and vals:
+            # emptied, not deleted: the file exists with length 0
+            p = vals.pop(rng.randrange(len(vals)))
+            with open(p, 'r+b') as f:
+                f.truncate(0)
+        elif kind in ('delete', 'truncate', 'extend') and vals:
             p = vals.pop(rng.randrange(len(vals)))
             if kind == 'delete':
                 os.remove(p)
@@ -215,6 +220,9 @@ def one_case(seed):
             c = diskcache.Cache(d, disk_min_file_size=8, eviction_policy=rng.choice(['least-recently-stored', 'none']))
             for i in range(rng.randint(0, 14)):
                 c[rng.choice([i, 'k%d' % i])] = rng.choice([i, 'v', b'b' * rng.randint(8, 40), 'text' * rng.randint(2, 9), [1] * 9])
+            if rng.random() < 0.3:
+                import io
+                c.set('empty-stream', io.BytesIO(b''), read=True)      # a legal value file of length 0
             c.close()
         applied = damage(rng, target)
         nm = Namer()
